@@ -219,7 +219,8 @@ def run(s):
         if cfg == "fma":
             for o in obs:
                 o.name = o.name.replace("c01_sse2_", "c01_fma_")
-            obs = [o for o in obs if any(k in o.name for k in ("vec3a", "vec4", "canary"))]
+            import re as _re
+            obs = [o for o in obs if _re.search(r"_(vec3a|vec4)_|canary", o.name)]
         s.run_config(cfg, contracts, obs, extra_rust=extra)
     s.assumptions += ASSUMPTIONS
     return s.finish(level_note=NOTE, trusted_base=TRUSTED, not_decided=NOT_DECIDED)
